@@ -181,6 +181,8 @@ def native_cases():
 
 
 def run(ctx, out):
+    import families as _fameq
+    out.evaluations += _fameq.equal_but_distinct_family(out, PROP)
     import families as _famni
     out.evaluations += _famni.noninit_roundtrip_family(out, PROP)
     import pane
